@@ -241,3 +241,143 @@ func ruleRecKey(c *Ctx) {
 	c.minInstances("element reads of record collections examined", nLoops, 6)
 	c.minInstances("key-based matches over record collections", nUses, 2)
 }
+
+// ---------------------------------------------------------------------------
+// deadPredicate: fn is a one-argument boolean predicate over a record (Entry / Record / MetaData) that
+// returns true whenever the record is a tombstone or has expired — so the false result establishes both
+// live guards on the argument. Decided from fn's own returns: a result that may be false is either the
+// value of IsExpired(record) reached only where Flag != DataDeleteFlag holds, the value of
+// Flag == DataDeleteFlag reached only where !IsExpired holds, or the constant false behind both guards.
+
+var deadPredMemo = map[*ssa.Function]int{} // 1 yes, 2 no, 3 in progress
+
+func deadPredicate(p *Prog, fn *ssa.Function) bool {
+	switch deadPredMemo[fn] {
+	case 1:
+		return true
+	case 2, 3:
+		return false
+	}
+	deadPredMemo[fn] = 3
+	ok := deadPredicateCompute(p, fn)
+	if ok {
+		deadPredMemo[fn] = 1
+	} else {
+		deadPredMemo[fn] = 2
+	}
+	return ok
+}
+
+func deadPredicateCompute(p *Prog, fn *ssa.Function) bool {
+	if fn == nil || fn.Blocks == nil || !p.inModule(fn) || len(fn.Params) != 1 || fn.Signature.Results().Len() != 1 {
+		return false
+	}
+	if b, ok := fn.Signature.Results().At(0).Type().Underlying().(*types.Basic); !ok || b.Kind() != types.Bool {
+		return false
+	}
+	if !isRecordLike(fn.Params[0].Type()) {
+		return false
+	}
+	g := liveGuardsOf(p, fn)
+	base := recordBase(pathOf(fn.Params[0]))
+	del, _ := constIntVal(p.Const("DataDeleteFlag"))
+	dom := func(edges []succEdge, b *ssa.BasicBlock) bool { return len(edges) > 0 && edgesDominate(fn, edges, b) }
+	okVal := func(v ssa.Value, at *ssa.BasicBlock) bool {
+		v = resolve1(v)
+		if bv, isC := constBool(v); isC {
+			if bv {
+				return true
+			}
+			return dom(g.notDel[base], at) && dom(g.notExp[base], at)
+		}
+		switch x := v.(type) {
+		case *ssa.Call:
+			if calleeIs(&x.Call, modPath, "", "IsExpired") && len(x.Call.Args) == 2 &&
+				isFieldLoad(x.Call.Args[0], "MetaData", "TTL") && isFieldLoad(x.Call.Args[1], "MetaData", "timestamp") &&
+				recordBase(pathOf(x.Call.Args[0])) == base && recordBase(pathOf(x.Call.Args[1])) == base {
+				return dom(g.notDel[base], at)
+			}
+			if calleeIs(&x.Call, modPath, "Record", "IsExpired") && recordBase(pathOf(x.Call.Args[0])) == base {
+				return dom(g.notDel[base], at)
+			}
+		case *ssa.BinOp:
+			if x.Op == token.EQL {
+				for _, pr := range [][2]ssa.Value{{x.X, x.Y}, {x.Y, x.X}} {
+					if k, ok := constInt(pr[1]); ok && k == del && isFieldLoad(pr[0], "MetaData", "Flag") && recordBase(pathOf(pr[0])) == base {
+						return dom(g.notExp[base], at)
+					}
+				}
+			}
+		}
+		return false
+	}
+	rets := returnsOf(fn)
+	if len(rets) == 0 {
+		return false
+	}
+	for _, r := range rets {
+		v := r.Results[0]
+		if ph, isPhi := v.(*ssa.Phi); isPhi {
+			for i, e := range ph.Edges {
+				if !okVal(e, ph.Block().Preds[i]) {
+					return false
+				}
+			}
+			continue
+		}
+		if !okVal(v, r.Block()) {
+			return false
+		}
+	}
+	return true
+}
+
+// guardedAtCallers: the entry v appended in fn derives from a record parameter of fn (r.E, or the entry read
+// at r.H.dataPos), and every call site of fn passes a record that has passed the guards where fn is called.
+func (a *liveAnalysis) guardedAtCallers(fn *ssa.Function, v ssa.Value, depth int) bool {
+	if depth > 2 || (fn.Object() != nil && fn.Object().Exported()) {
+		return false
+	}
+	// the record parameter(s) v derives from
+	var params []*ssa.Parameter
+	add := func(x ssa.Value) {
+		root, _ := splitPath(x)
+		if p, ok := root.(*ssa.Parameter); ok && isRecordLike(p.Type()) {
+			params = append(params, p)
+		}
+	}
+	add(v)
+	if root, _ := splitPath(resolve1(v)); root != nil {
+		if ex, ok := root.(*ssa.Extract); ok {
+			if call, ok := ex.Tuple.(*ssa.Call); ok {
+				for _, arg := range call.Call.Args {
+					add(arg)
+				}
+			}
+		}
+	}
+	if len(params) == 0 {
+		return false
+	}
+	sites := a.c.P.CallersOf(fn)
+	if len(sites) == 0 {
+		return false
+	}
+	for _, p := range params {
+		idx := paramIndex(fn, p)
+		for _, s := range sites {
+			if s.Common().IsInvoke() || idx >= len(s.Common().Args) {
+				return false
+			}
+			arg := s.Common().Args[idx]
+			if ok, _ := a.guardedAt(s.Parent(), arg, s.Block()); ok {
+				continue
+			}
+			// the caller may itself only forward its own record parameter
+			if !a.guardedAtCallers(s.Parent(), arg, depth+1) {
+				return false
+			}
+		}
+	}
+	return true
+}
